@@ -16,6 +16,9 @@ ASSUMPTIONS = [
     "strict reading of the statement: an idle, non-persistent connection is closed by the first service call at tyme >= last traffic + tymeout",
 ]
 REQ = b"GET /idle HTTP/1.0\r\nHost: localhost\r\nX-Pad: aaaaaaaaaaaaaaaaaaaaaaaaaaaaaaaa\r\n\r\n"
+# an HTTP/1.1 request that declines persistence: its head arrives whole, its body trickles in and stalls short of its length
+HEAD11 = b"POST /idle HTTP/1.1\r\nHost: localhost\r\nConnection: close\r\nContent-Length: 40\r\n\r\n"
+BODY11 = b"b" * 40
 TICK = 0.5
 
 
@@ -29,7 +32,9 @@ def RULE(tier):
             "%d ticks, silent / 1 byte: all 2^%d timings). Oracle per tick: the connection is closed (peer sees EOF, tables empty) "
             "exactly when the server serviced at tyme >= last traffic + tymeout; a connection with traffic in every window is never "
             "closed. The same for the other direction: the whole request arrives at once and the response drains with the kernel "
-            "accepting 0 / 1 / 2 bytes per tick. The tree of timings is enumerated completely." % ((13, 13) if tier == "quick" else (16, 16)))
+            "accepting 0 / 1 / 2 bytes per tick; and for the body of an HTTP/1.1 'Connection: close' request trickling in after its head. Each "
+            "with the servant built by http.Server from its own parameters and with a servant handed in that has a wire log attached. "
+            "The tree of timings is enumerated completely." % ((13, 13) if tier == "quick" else (16, 16)))
 
 
 def EXHAUSTIVE(tier):
@@ -41,7 +46,11 @@ def jobs(tier):
     js = [("C12", tls, 1.0, 9, 3, "up") for tls in (False, True)] + [("C12", tls, 2.5, long_ticks, 2, "up") for tls in (False, True)]
     # server-to-client direction: the response drains slowly (kernel accepts 0 or a few bytes per tick)
     js += [("C12", tls, 1.0, 9, 3, "down") for tls in (False, True)] + [("C12", tls, 2.5, long_ticks, 2, "down") for tls in (False, True)]
-    return sharded(js, 16)
+    # the body of an HTTP/1.1 'Connection: close' request trickling in after its head
+    js += [("C12", tls, 1.0, 9, 3, "body") for tls in (False, True)] + [("C12", tls, 2.5, long_ticks, 2, "body") for tls in (False, True)]
+    # each of them with the servant built by http.Server itself, and with a servant handed in that has a wire log attached
+    js = [j + (build,) for j in js for build in ("own", "given+wl")]
+    return sharded(js, 8)
 
 
 def app(environ, start_response):
@@ -63,18 +72,28 @@ class DrainPolicy(fakenet.Policy):
 
 def harness(job, ch):
     _, tls, tymeout, nticks, nopts, direction = job[:6]
+    build = job[6] if len(job) > 6 and isinstance(job[6], str) else "own"
     pol = DrainPolicy()
     net = fakenet.Net(pol)
     viol, states = [], []
     tymist = tyming.Tymist(tyme=0.0, tock=TICK)
     with fakenet.Installed(net):
         kw = dict(port=6101, tymeout=tymeout, app=app)
-        if tls:
-            servant = tcpserving.ServerTls(context=fakenet.FakeSSLContext(net), host="127.0.0.1", port=6101, tymeout=tymeout,
-                                           tymth=tymist.tymen())
-            server = http.Server(servant=servant, **kw)
+        if build == "own":       # http.Server builds its servant from its own parameters
+            if tls:
+                server = http.Server(host="127.0.0.1", scheme="https", context=fakenet.FakeSSLContext(net), **kw)
+            else:
+                server = http.Server(host="127.0.0.1", **kw)
         else:
-            server = http.Server(host="127.0.0.1", **kw)
+            from hio.core import wiring
+            wl = wiring.WireLog(samed=False, filed=False, fmt=b"%(data)b", name="c12")
+            wl.reopen()
+            if tls:
+                servant = tcpserving.ServerTls(context=fakenet.FakeSSLContext(net), host="127.0.0.1", port=6101, tymeout=tymeout,
+                                               tymth=tymist.tymen(), wl=wl)
+            else:
+                servant = tcpserving.Server(host="127.0.0.1", port=6101, tymeout=tymeout, tymth=tymist.tymen(), wl=wl)
+            server = http.Server(servant=servant, **kw)
         server.wind(tymist.tymen())
         escaped = None
         assert server.reopen()
@@ -87,17 +106,25 @@ def harness(job, ch):
             escaped = (tcpsys.site_of(ex), type(ex).__name__)
         last = 0.0                    # tyme of last traffic (connection establishment counts)
         sent = 0
+        req = REQ
+        if direction == "body":       # the head is there from the start (tyme 0), the body is what trickles
+            req = BODY11
+            raw.send(HEAD11)
+            try:
+                server.service()
+            except Exception as ex:
+                escaped = (tcpsys.site_of(ex), type(ex).__name__)
         pattern = []
         closed_at = None
         for k in range(nticks):
             tymist.tick()
             t = tymist.tyme
-            if direction == "up":
-                n = ch.choose(nopts, "tick%d" % k) if sent < len(REQ) else 0
+            if direction in ("up", "body"):
+                n = ch.choose(nopts, "tick%d" % k) if sent < len(req) else 0
                 pattern.append(n)
                 if n and not raw.rx_eof and not raw.closed:
                     try:
-                        raw.send(REQ[sent:sent + n])
+                        raw.send(req[sent:sent + n])
                         sent += n
                     except OSError:
                         pass
@@ -119,7 +146,7 @@ def harness(job, ch):
             closed = (srv_sock is None) or srv_sock.closed
             in_tables = bool(server.servant.ixes) or bool(getattr(server.servant, "cxes", {})) or bool(server.reqs)
             states.append((k, n, traffic, closed, in_tables, round(t - last, 3)))
-            complete = sent >= len(REQ) if direction == "up" else False
+            complete = sent >= len(req) if direction in ("up", "body") else False
             if complete:
                 break                  # request fully delivered: the exchange ends by the non-persistent rule, not by idleness
             idle_for = t - last        # before accounting this tick's traffic
@@ -128,14 +155,14 @@ def harness(job, ch):
             if closed and closed_at is None:
                 closed_at = t
                 if idle_for < tymeout:   # (bytes flushed by the closing call itself are not traffic that keeps it alive)
-                    viol.append(("closed-while-active:%s%s" % ("tls" if tls else "plain", ":response-draining" if direction == "down" else ""),
+                    viol.append(("closed-while-active:%s%s" % ("tls" if tls else "plain", ":response-draining" if direction == "down" else ":body" if direction == "body" else ""),
                                  "tymeout %s: connection closed at tyme %s, last traffic at %s (pattern %s)" % (tymeout, t, last if traffic else t - idle_for, pattern)))
                 if in_tables:
                     viol.append(("closed-but-in-tables", "socket closed at %s but server tables still hold the connection" % t))
                 break
             if not closed and not traffic and idle_for >= tymeout:
                 viol.append(("idle-not-closed:%s:%s%s" % ("late" if _closes_later(server, tymist, raw, 8) else "never", "tls" if tls else "plain",
-                                                           ":response-stalled" if direction == "down" else ""),
+                                                           ":response-stalled" if direction == "down" else ":body-stalled" if direction == "body" else ""),
                              "tymeout %s: no traffic since tyme %s, serviced at %s, connection still open (pattern %s)" % (tymeout, last, t, pattern)))
                 break
         if escaped:
